@@ -303,6 +303,16 @@ def check_proofs(pid, res, tier='quick'):
     if 'Gen/Tr.v' in cone or 'Gen/TrF.v' in cone or 'Gen/TrS.v' in cone:
         try:
             regenerate_tr()
+            from vt import pytr
+            # fail closed PER TARGET: an unreadable function breaks exactly the obligations that mention it
+            texts = ''
+            for d in sorted(set(cone) | {rel}):
+                fp = os.path.join(COQ, d)
+                if os.path.exists(fp) and not d.startswith('Gen/Tr'):
+                    texts += open(fp).read()
+            for cn, why in sorted(pytr.FAILURES.items()):
+                if re.search(r'(?<![\w.])%s(?![\w])' % re.escape(cn), texts):
+                    problems.append('%s (Gen/Tr*.v) could not be re-translated from the source of /repo: %s' % (cn, why))
         except Exception as e:   # the translator is fail-closed: an unsupported construct is a broken tie
             problems.append('Gen/Tr.v could not be re-translated from the source of /repo: %s' % (
                 ''.join(traceback.format_exception_only(type(e), e)).strip()))
